@@ -13,6 +13,16 @@ diffleak spec/DiffPipelineFault.tla: the per-file pipeline of WritePatch (DiffPi
         consumer fails before the reader task is through (MC_DiffPipelineFault_leak: expected counterexample).
         TV: the real WritePatch with injected faults (Trace_DiffLeak): goroutines left behind (OBSERVATION), the
         model's invariants on the real runs (anything else: ODD).
+
+healprogress spec/HealProgress.tla: the progress accounting of the archive healer (totalHealthy / totalHealing /
+        totalHealed / totalCorrupted and the fraction handed to Consumer.Progress, documented "in the [0,1]
+        interval") over the event series one damaged file produces (healthy blocks, merged wounds, the worker's own
+        size wound that may overtake up to two events still travelling through the per-writer goroutines).
+        MC: the fraction stays in [0,1], never goes back and ends at exactly 1 for every damage except a file that
+        GREW and whose signed size is a multiple of the block size (MC_HealProgress_ok); with those it reaches 2
+        (MC_HealProgress_long: expected counterexample) and on a build of empty files it is 0/0
+        (MC_HealProgress_empty: expected counterexample). TV: the real Validate + heal on small builds with one
+        damage per file (Trace_HealProgress): contract (OBSERVATION), totals against the model's (drift).
 """
 import os
 import shutil
@@ -79,6 +89,42 @@ def run(tier):
         if odd:
             c = vlib.get_line(tp, odd[0][0])
             print("NOTE: spec drift: DiffPipelineFault.tla says this cannot happen (%s): %s" % (odd[0][1], c), flush=True)
+        # ---------------- progress accounting of the archive healer
+        r = vlib.run_tlc("HealProgress", "MC_HealProgress_ok.cfg", timeout=900, heap="8g")
+        if r.error or not r.ok:
+            raise vlib.Inconclusive("MC_HealProgress_ok: %s %s" % (r.violated, r.error))
+        vlib.log("[mc] HealProgress (every damage but grown files of block-aligned size): %d distinct states; ProgressBounded, FinalExact, NeverBackwards hold" % r.distinct)
+        r = vlib.run_tlc("HealProgress", "MC_HealProgress_long.cfg", timeout=900, heap="8g")
+        if r.error or r.violated != "ProgressBounded":
+            raise vlib.Inconclusive("MC_HealProgress_long should violate ProgressBounded, got %s %s" % (r.violated, r.error))
+        vlib.log("[mc] HealProgress (grown files): fraction above 1 - counterexample as expected (%d steps)" % len(r.trace or []))
+        r = vlib.run_tlc("HealProgress", "MC_HealProgress_empty.cfg", timeout=900, heap="8g")
+        if r.error or r.violated != "ProgressDefined":
+            raise vlib.Inconclusive("MC_HealProgress_empty should violate ProgressDefined, got %s %s" % (r.violated, r.error))
+        vlib.log("[mc] HealProgress (builds of empty files): 0/0 reported - counterexample as expected (%d steps)" % len(r.trace or []))
+        n = 200 if tier == "quick" else 3000
+        tp = os.path.join(d, "healprogress.ndjson")
+        vlib.run_driver(binary, ["healprogress", "-n", n, "-out", tp], timeout=3000)
+        cnt = vlib.count_lines(tp)
+        r = vlib.run_tlc("Trace_HealProgress", "Trace_HealProgress.cfg", data={"trace.ndjson": tp}, workers=8, timeout=3000, heap="8g")
+        if r.error or not r.ok or r.distinct < cnt:
+            raise vlib.Inconclusive("Trace_HealProgress failed: %s\n%s" % (r.error or r.violated, r.out[-2000:]))
+        obs = vlib.parse_tagged(r.prints, "OBS")
+        drift = vlib.parse_tagged(r.prints, "DRIFT")
+        unusable = vlib.parse_tagged(r.prints, "UNUSABLE")
+        vlib.log("[tv] healprogress: %d real heals (%d did not end in a valid build and say nothing); fraction outside [0,1] / not a number / not ending at 1 in %d; drift %d"
+                 % (cnt, len(unusable), len(obs), len(drift)))
+        kinds = {}
+        for o in obs:
+            kinds.setdefault(str(o[1]), o[0])
+        for kd, ln in sorted(kinds.items()):
+            c = vlib.get_line(tp, ln)
+            print("OBSERVATION healprogress: %d of %d heals report a progress fraction that breaks the [0,1] contract (%s), e.g. %s"
+                  % (sum(1 for o in obs if str(o[1]) == kd), cnt, kd, {k: c[k] for k in ("sizes", "disks", "total", "healed", "corrupted", "finalnum", "maxnum", "nan")}), flush=True)
+        if drift:
+            c = vlib.get_line(tp, drift[0][0])
+            print("NOTE: spec drift: HealProgress.tla predicts other totals than the real healer on %d lines, e.g. %s expected (healed, corrupted, final) %s"
+                  % (len(drift), {k: c[k] for k in ("sizes", "disks", "total", "healed", "corrupted", "finalnum")}, drift[0][1:]), flush=True)
         print("RESULT growth %s: done (observations are not violations of a listed property)" % tier, flush=True)
         return rc
     finally:
